@@ -129,8 +129,20 @@ HeaderOK(h, hi, r, t, g, boExp, dsPerFile, X) ==
   /\ \/ h.dlen = dsPerFile * nv * h.bpp
      \/ /\ K_NEGUNS \in X /\ h.dlen < dsPerFile * nv * h.bpp
         /\ IF img.fmt = "Multi" THEN NegSet(img.m[hi]) ELSE \E d \in 1..img.nd : NegSet(img.m[d])
-  /\ h.mod = (IF ex.mod = "Unknown" THEN "-" ELSE ex.mod)
-  /\ h.typeOfData = (IF ex.mod = "NM" THEN "Tomographic" ELSE "PET")
+
+\* the exam-information keys of a header are those the documented writer emits (ExamToHeader); with the Multi format
+\* the header of frame hi carries that frame only
+HdrExamOK(h, hi, X) ==
+  LET ex == ExamOf(img.exam)
+      exh == IF img.fmt = "Multi" /\ img.kind = "dyn" THEN [ex EXCEPT !.frames = << ex.frames[hi] >>] ELSE ex
+      e == ExamToHeader(exh) IN
+  /\ h.mod = e.mod /\ h.typeOfData = e.typeOfData /\ h.orient = e.orient
+  /\ \/ h.rot = e.rot
+     \/ K_ROT \in X /\ e.rot \in { "right", "left" } /\ h.rot = "other"      \* known finding
+  /\ h.nframes = e.nframes /\ h.frames = e.frames
+  /\ h.rn = e.rn /\ h.lo8 = e.lo8 /\ h.hi8 = e.hi8 /\ h.cal4 = e.cal4
+  /\ \/ h.hlms = e.hlms /\ h.brppm = e.brppm
+     \/ K_DEC6 \in X /\ Abs(h.hlms - e.hlms) <= Dec6Slack(e.hlms) /\ Abs(h.brppm - e.brppm) <= Dec6Slack(e.brppm)
 
 \* named deviation ContainerNativeOrder: the Interfile formats for dynamic and parametric images
 \* document that the byte order is fixed to the native one
@@ -156,7 +168,8 @@ W_data(r, X) == \A d \in 1..img.nd :
   \/ K_NEGUNS \in X /\ NegSet(img.m[d])
   \/ DataSetOK(r.type, img.m[d], img.vexp, img.k, r.ds[d], img.bits[d], X)
 W_userscale(r, X) == \A d \in 1..img.nd : UserScaleOK(r, r.type, img.m[d], img.vexp, r.ds[d], X)
-WriteOK(r, X) == W_status(r) /\ W_format(r) /\ W_headers(r, X) /\ W_layout(r, X) /\ W_data(r, X) /\ W_userscale(r, X)
+W_exam(r, X) == Len(r.hdrs) = NumHdrs /\ \A hi \in 1..NumHdrs : HdrExamOK(r.hdrs[hi], hi, X)
+WriteOK(r, X) == W_status(r) /\ W_format(r) /\ W_headers(r, X) /\ W_layout(r, X) /\ W_data(r, X) /\ W_userscale(r, X) /\ W_exam(r, X)
 
 (* ----------------------------------------------------------------- Read *)
 \* The property demands the positions, not a particular index convention: the documented re-normalisation of the
@@ -255,12 +268,13 @@ Sig(f, r) ==
        [] f = K_NEGUNS ->        \* unsigned type, automatic scale, a data set without positive values but with negative ones
             /\ WType(r) \in { "UCHAR", "USHORT", "UINT", "ULONG" } /\ WScaleM(r) = 0
             /\ \E d \in 1..img.nd : NegSet(img.m[d])
-       [] f = K_ROT -> r.e = "Read" /\ img.exam.rot \in { 2, 3 }        \* patient rotation right / left
+       [] f = K_ROT -> img.exam.rot \in { 2, 3 }                        \* patient rotation right / left
        [] f = K_NMOFF ->         \* modality NM, dynamic or parametric image in one Interfile file, more than one data set
             r.e \in { "Read", "Trunc" } /\ img.exam.mod = "NM" /\ img.kind # "single" /\ img.fmt = "Interfile" /\ img.nd >= 2
        [] f = K_DEC6 ->          \* a header number that needs more than 6 significant digits
             \/ \E a \in 1..3 : ~Dec6Exact(FirstPixelOffset(G(img.geo[1]))[a])
             \/ \E d \in 1..img.nd : d <= Len(WDs(r)) /\ WDs(r)[d].sm \notin { 0, 1 }
+            \/ r.e = "Write" /\ img.exam.hlms > 0
        [] OTHER -> FALSE
 
 \* findings whose signature matches the line; if the line is explained with all of them switched on, those
@@ -280,7 +294,7 @@ Needed(r) == LET A == Applicable(r) IN
 WhyX(r, X) ==
   CASE r.e = "Write" /\ img # None ->
          (IF ~W_status(r) THEN "W_status" ELSE IF ~W_format(r) THEN "W_format" ELSE IF ~W_headers(r, X) THEN "W_headers"
-          ELSE IF ~W_layout(r, X) THEN "W_layout" ELSE IF ~W_data(r, X) THEN "W_data" ELSE "W_userscale")
+          ELSE IF ~W_layout(r, X) THEN "W_layout" ELSE IF ~W_data(r, X) THEN "W_data" ELSE IF ~W_userscale(r, X) THEN "W_userscale" ELSE "W_exam")
     [] r.e = "Read" /\ img # None /\ wr # None ->
          (IF ~R_status(r) THEN "R_status" ELSE IF ~R_shape(r) THEN "R_shape" ELSE IF ~R_geom(r, X) THEN "R_geom"
           ELSE IF ~R_values(r, X) THEN "R_values" ELSE "R_exam")
